@@ -29,7 +29,8 @@ MUTANTS = [
     ('bytes-prefix-dropped-on-pieces', PP, "        if isinstance(s, bytes)\n        else ''\n    )\n\n    if use_quote is None:", "        if isinstance(s, bytes) and use_quote is None\n        else ''\n    )\n\n    if use_quote is None:", ['C02']),
     ('string-floor-removed', PP, "            8 + len('\"\"')\n", "            -1000\n", ['C02', 'C12']),
     # ---- C03
-    ('kwargs-reordered-when-broken', PP, "    allarg_docs = [*argdocs, *kwargdocs]\n", "    allarg_docs = [*argdocs, *(kwargdocs if len(kwargdocs) < 3 else kwargdocs[::-1])]\n", ['C17', 'C03']),
+    ('kwargs-reordered-when-broken', PP, "    allarg_docs = [*argdocs, *kwargdocs]\n", "    allarg_docs = [*argdocs, *(kwargdocs if len(kwargdocs) < 3 else kwargdocs[::-1])]\n", ['C17']),
+    ('dangle-comma-only-when-flat', PP, "    if dangle:\n        parts.append(COMMA)", "    if dangle:\n        parts.append(flat_choice(when_flat=COMMA, when_broken=NIL))", ['C03', 'C01']),
     ('bracket-nest-plus-one', PP, "        nest(ctx.indent, concat([SOFTLINE, child])),", "        nest(ctx.indent + 1, concat([SOFTLINE, child])),", ['C03']),
     # ---- C04 / C05 / C06
     ('sline-indent-plus-one', LAY, "            yield SLine(indent)\n", "            yield SLine(indent + 1)\n", ['C04']),
@@ -82,6 +83,9 @@ MUTANTS = [
     ('enclosing-color-not-restored', COL, "                if colorstack:\n                    stream.write(str(colorstack[-1]))", "                if colorstack:\n                    pass", ['C16']),
     ('color-cache-keyed-by-name-across-styles', COL, "    color_cache = {}\n", "    color_cache = _GLOBAL_COLOR_CACHE\n", ['C16']),
     ('token-mapping-removed', COL, "    Token.NUMBER_FLOAT: token.Number.Float,\n", "", ['C16']),
+    # ---- C20
+    ('promotion-outside-lock', PP, "    with _REGISTRY_LOCK:\n        return _is_registered(", "    if True:\n        return _is_registered(", ['C20']),
+    ('lock-dropped-in-print-path', PP, "    with _REGISTRY_LOCK:\n        is_registered(\n            type(value),", "    if True:\n        is_registered(\n            type(value),", ['C20']),
     # ---- C19
     ('line-normalized-in-place', DT, "        return FlatChoice(\n            self._when_broken,\n            self._when_flat,\n            normalize_on_access=True\n        )", "        self.normalize_on_access = True\n        return self", ['C19']),
     ('sorted-keys-written-back', PP, "    pairs = []\n    for k in take(ctx.max_seq_len, sorted_keys):", "    if ctx.sort_dict_keys and type(d) is dict:\n        _items = [(k, d[k]) for k in sorted_keys]\n        d.clear()\n        d.update(_items)\n        sorted_keys = list(d.keys())\n    pairs = []\n    for k in take(ctx.max_seq_len, sorted_keys):", ['C19']),
